@@ -474,6 +474,13 @@ def r03_7(ctx: Ctx):
     return obs
 
 
+def r03_8(ctx: Ctx):
+    """R03.8 sprouting, stop-condition and reporting code never invokes the objective: every evaluation of a run is made by a deme through its counting wrapper."""
+    from .common import who_may_evaluate
+
+    return who_may_evaluate(ctx, "R03.8")
+
+
 RULES = [
     ("R03.1", r03_1, 8),
     ("R03.2", r03_2, 16),
@@ -482,4 +489,5 @@ RULES = [
     ("R03.5", r03_5, 3),
     ("R03.6", r03_6, 3),
     ("R03.7", r03_7, 1),
+    ("R03.8", r03_8, 1),
 ]
